@@ -7,6 +7,7 @@
 namespace {
 using namespace vh;
 using tcp = asio::ip::tcp;
+using udp = asio::ip::udp;
 using sim::aux::packet;
 
 struct ctl_rule { int conn; std::string dir; std::int64_t seq; int nth; std::int64_t extra; bool drop; };
@@ -60,6 +61,9 @@ struct tcp_run
 	std::map<std::string, std::unique_ptr<tcp::socket>> socks;
 	std::map<std::string, std::unique_ptr<tcp::acceptor>> accs;
 	std::map<std::string, std::string> sock_node;
+	// UDP datagrams sent alongside the TCP traffic (one capture with both protocols: C19)
+	std::map<std::string, std::unique_ptr<udp::socket>> usocks;   // by "addr:port"
+	std::map<int, json::array> udst;                               // datagram id -> destination
 	std::map<std::string, side> sides;
 	std::map<int, conn_info> conns;
 	std::map<std::string, int> conn_by_ckey;     // connector real ep -> conn id
@@ -176,6 +180,18 @@ struct tcp_run
 	void on_hop(std::string const& hop, packet& p)
 	{
 		if (p.type == packet::type_t::uninitialized) return;
+		int conn0 = 0; std::string dir0;
+		if (p.type == packet::type_t::payload && !p.channel && !udst.empty() && !classify(p, conn0, dir0))
+		{
+			// a UDP datagram of the side traffic (it belongs to no connection): only its first-hop transmission is recorded
+			if (hop.rfind("out:", 0) != 0 || p.buffer.size() < 2) return;
+			int id = int(std::uint8_t(p.buffer[0])) | (int(std::uint8_t(p.buffer[1])) << 8);
+			json::object e; e["e"] = "WireU"; e["id"] = id; e["len"] = std::int64_t(p.buffer.size()); e["t"] = rec.sync();
+			e["from"] = ep_json(w, p.from); e["dig"] = std::int64_t(dig(p.buffer));
+			if (udst.count(id)) e["dst"] = udst[id];
+			rec.emit(e);
+			return;
+		}
 		int conn = 0; std::string dir;
 		if (!classify(p, conn, dir)) return;
 		bool const first_hop = hop.rfind("out:", 0) == 0;
@@ -704,6 +720,44 @@ struct tcp_run
 				at(close_at, [this, who]() { do_close(sides[who]); });
 			}
 		}
+		if (prog.find("udp") != prog.end())
+		{
+			auto usock = [this, &topo](std::string const& a, int port) -> udp::socket* {
+				std::string key = a + ":" + std::to_string(port);
+				if (usocks.count(key)) return usocks[key].get();
+				for (auto const& kv : topo.at("nodes").as_object())
+					for (auto const& x : kv.value().as_array())
+						if (a == x.as_string().c_str())
+						{
+							usocks[key].reset(new udp::socket(*nodes[std::string(kv.key())]));
+							error_code ec;
+							usocks[key]->open(udp::v4(), ec);
+							usocks[key]->bind(udp::endpoint(w.real_addr(a), std::uint16_t(port)), ec);
+							usocks[key]->non_blocking(true);
+							return usocks[key].get();
+						}
+				return nullptr;
+			};
+			int uid = 0;
+			for (auto const& uv : prog.at("udp").as_array())
+			{
+				json::object const& u = uv.as_object();
+				std::string from = gets(u, "from"), to = gets(u, "to");
+				int fport = int(geti(u, "fport")), tport = int(geti(u, "tport")), size = int(geti(u, "size"));
+				udp::socket* s = usock(from, fport);
+				usock(to, tport);
+				if (!s || size < 2) continue;
+				int id = ++uid;
+				json::array d; d.push_back(json::string(to)); d.push_back(tport);
+				udst[id] = d;
+				at(geti(u, "t"), [this, s, to, tport, size, id]() {
+					std::string pl(std::size_t(size), char(id * 7));
+					pl[0] = char(id & 0xff); pl[1] = char((id >> 8) & 0xff);
+					error_code ec;
+					s->send_to(asio::buffer(pl), udp::endpoint(w.real_addr(to), std::uint16_t(tport)), 0, ec);
+				});
+			}
+		}
 		bool thrown = false;
 		try { sim->run(); } catch (livelock_error const&) {} catch (thrown_by_fault const&) { thrown = true; }
 		rec.sync();
@@ -726,6 +780,7 @@ struct tcp_run
 		boundaries = bcount;
 		sim->verif_step_hook = nullptr;
 		timers.clear();
+		usocks.clear();
 		socks.clear();
 		accs.clear();
 		nodes.clear();
